@@ -222,10 +222,17 @@ def run(ctx):
             commits_ = m.commit_nodes(hg)
             okp = meth in m.handlers and bool(commits_) and all(hg.dominates(cn, node) for cn in commits_)
             okv = False
+            # the stored value may be hoisted into a local: follow single reaching definitions of plain names
+            vnode, hops = node, 0
+            while isinstance(val, ast.Name) and hops < 4:
+                ds = [d for d in hrd.reaching(vnode, val.id)]
+                if len(ds) != 1 or not isinstance(ds[0][1], ast.AST) or ds[0][2] is None:
+                    break
+                val, vnode, hops = ds[0][1], ds[0][2], hops + 1
             if isinstance(val, ast.Call) and call_name(val) == 'str' and len(val.args) == 1 and isinstance(val.args[0], ast.Attribute) and val.args[0].attr == 'unique_identifier' \
                     and isinstance(val.args[0].value, ast.Name):
                 ov = val.args[0].value.id
-                vals = hrd.values(node, ov)
+                vals = hrd.values(vnode, ov)
                 fresh = bool(vals) and all(isinstance(v, ast.Call) and ((call_name(v) or '').startswith('objects.') or (isinstance(v.func, ast.Attribute) and v.func.attr == 'convert')) for v in vals)
                 okv = fresh and bool(m.add_nodes(hg, ov))
             ctx.check(okp and okv, 'C08.R5', 'KmipEngine.%s|placeholder-store' % meth, site, 'placeholder = str(<new object>.unique_identifier) after the commit',
